@@ -25,6 +25,7 @@ import (
 	"bufio"
 	"fmt"
 	"io"
+	"math"
 	"regexp"
 	"strconv"
 
@@ -34,6 +35,7 @@ import (
 // ReadNCBI decodes an NCBI-format substitution matrix from the given reader.
 func ReadNCBI(r io.Reader) (align.SubstitutionMatrix, error) {
 	sc := bufio.NewScanner(r)
+	sc.Buffer(nil, math.MaxInt) // Lines may exceed the default 64 KiB limit.
 	re := regexp.MustCompile(`\S+`)
 	m := align.SubstitutionMatrix{}
 	var chars []byte
